@@ -39,6 +39,10 @@ const (
 	streamOpened streamState = iota
 	streamClosed
 	streamHalfClosed
+	// Close() was called while a callback was in process: the stream is no longer
+	// open and the callback goroutine finishes the close (local to this process,
+	// never sent to the peer).
+	streamClosing
 )
 
 const (
@@ -87,10 +91,6 @@ type Stream struct {
 	// when callback.OnData inner call stream.Close set this field
 	// after OnData return check state and call stream.Close again
 	callbackCloseState uint32
-	// set when Close() was called while a callback was in process and moved the
-	// stream from opened to halfClosed itself: the deferred close() must then still
-	// notify the peer and report OnLocalClose, exactly as a direct close would.
-	deferredLocalClose uint32
 }
 
 // newStream is used to construct a new stream within
@@ -285,9 +285,9 @@ func (s *Stream) Close() error {
 		atomic.StoreUint32(&s.callbackCloseState, uint32(callbackWaitExit))
 	}
 	if atomic.LoadUint32(&s.callbackInProcess) == 1 {
-		if atomic.CompareAndSwapUint32(&s.state, uint32(streamOpened), uint32(streamHalfClosed)) {
-			atomic.StoreUint32(&s.deferredLocalClose, 1)
-		}
+		// not halfClosed: that state means "the peer closed" and would make the deferred
+		// close() skip the peer notification and OnLocalClose
+		atomic.CompareAndSwapUint32(&s.state, uint32(streamOpened), uint32(streamClosing))
 		return nil
 	}
 
@@ -319,7 +319,7 @@ func (s *Stream) close() error {
 			s.asyncGoroutineWg.Wait()
 		}
 		s.clean()
-		if oldState == uint32(streamOpened) || atomic.CompareAndSwapUint32(&s.deferredLocalClose, 1, 0) {
+		if oldState == uint32(streamOpened) || oldState == uint32(streamClosing) {
 			s.safeCloseNotify()
 			callback := s.getCallbacks()
 			if callback != nil {
